@@ -45,3 +45,28 @@ Lemma ex_wf : nl_wfb exG ex_nodelist ex_idx = true.
 Proof. vm_compute. reflexivity. Qed.
 Lemma ex_adj_perm : forall u, In u ex_nodelist -> Permutation (gadj exG' (ex_phi u)) (map ex_phi (gadj exG u)).
 Proof. exact (rl_adj _ _ _ _ _ _ _ _ _ _ _ (relabel_okb_spec _ _ _ _ _ _ _ _ _ _ _ ex_relabel_ok)). Qed.
+
+(* ---------- graph isomorphism instance for the degree-based wrappers ---------- *)
+From EoNV Require Import Aux IC Wrappers ICP C14xOut C14xWrap.
+Definition ex_phi_g (u : node) : node := if N.leb u 100 then (100 - u)%N else u.
+Lemma ex_phi_g_inj : forall u v, ex_phi_g u = ex_phi_g v -> u = v.
+Proof.
+  intros u v. unfold ex_phi_g. destruct (N.leb_spec u 100), (N.leb_spec v 100); lia.
+Qed.
+Lemma ex_iso_wf : wf_ugraph exG = true /\ wf_ugraph exG' = true.
+Proof. split; vm_compute; reflexivity. Qed.
+Lemma ex_iso_nodes : Permutation (gnodes exG') (map ex_phi_g (gnodes exG)).
+Proof. apply permb_spec. vm_compute. reflexivity. Qed.
+Lemma ex_iso_adj : forall u, In u (gnodes exG) -> Permutation (gadj exG' (ex_phi_g u)) (map ex_phi_g (gadj exG u)).
+Proof. intros u [<-|[<-|[<-|[<-|[]]]]]; apply permb_spec; vm_compute; reflexivity. Qed.
+(* G.edges() of the copy is NOT the renamed G.edges(): other order, other orientations *)
+Lemma ex_iso_edges_differ :
+  gedges exG = [(10, 20); (10, 30); (20, 30); (20, 40)]%N /\ gedges exG' = [(60, 80); (90, 70); (90, 80); (70, 80)]%N.
+Proof. split; vm_compute; reflexivity. Qed.
+Definition ex_rq : icreq := mkReq (Some [10; 30]%N) (Some [40]%N) None.
+Lemma ex_iso_output_nontrivial :
+  match row0_entry eSIRp exG ex_rq true, row0_entry eSIRp exG' (map_req ex_phi_g ex_rq) true with
+  | Ok a, Ok b => negb (Nat.eqb (length a) 0) && Nat.eqb (length a) (length b)
+  | _, _ => false
+  end = true.
+Proof. vm_compute. reflexivity. Qed.
